@@ -1,4 +1,5 @@
 (* name on the wire -> extracted run function *)
 let table : (string * (Model.n list -> Model.n list)) list = [
   ("inflights", Model.run_inflights);
+  ("confchange", Model.run_confchange);
 ]
